@@ -35,6 +35,10 @@ def full_inputs(tier):
     return out
 
 
+# whitespace other than blank and tab (str.strip() removes all of these; none of them ends a line for a text-mode reader)
+WS_EXOTIC = ['\x0b', '\x0c', '\x1c', '\x1d', '\x1e', '\x1f', '\x85', '\xa0', '\u2009', '\u2028', '\u2029', '\u3000']
+
+
 def variant_task(payload):
     res = check.new_result()
     rn = rel.Runner(res)
@@ -145,6 +149,9 @@ def plan(tier, seed):
             ('decor:tabs', text(['\t' + l.replace(', ', ',\t') + '\t' for l in lines])), ('decor:blanks-around-commas', text([l.replace(', ', '  ,   ') for l in lines])),
             ('decor:blank-lines', text([x for l in lines for x in (l, '')])), ('decor:no-final-newline', '\n'.join(lines)),
         ]
+        # every character str.strip() removes is whitespace to the reader: around the name, before and after the value
+        for w in WS_EXOTIC:
+            variants.append((f'decor:ws-{ord(w):04x}', text([w + l.replace(', ', w + ',' + w, 1) + w for l in lines])))
         for ci, cs in enumerate(COMMENT_STYLES):
             variants.append((f'decor:comment-field{ci}', text([l + cs for l in lines])))
         for ci, cl in enumerate(COMMENT_LINES):
@@ -185,6 +192,9 @@ def plan(tier, seed):
                 for lay, raw in (('lf', text(fl)), ('no-final-newline', '\n'.join(fl)), ('crlf', text(fl, '\r\n')), ('crlf-no-final-newline', '\r\n'.join(fl)),
                                  ('blank-tail', text(fl) + '\n\n'), ('comment-tail-no-newline', text(fl) + '# end')):
                     variants.append((f'override:{"-".join(map(str, pick))}/{oi}/{lay}', raw, order))
+                if pick == [n - 1] and oi == 0:
+                    for w in WS_EXOTIC:
+                        variants.append((f'override:{n - 1}/ws-{ord(w):04x}', text([w + l.replace(', ', w + ',' + w, 1) + w for l in fl]), order))
         for i in range(0, len(variants), B):
             P.append({'id': 'full/' + fid, 'base': lines, 'variants': variants[i:i + B]})
     return P
@@ -195,7 +205,7 @@ def run(tier, seed, budget=None):
         sys.modules[__name__], PID, tier, seed, budget,
         rule=('orbits of one parameter set on the real pipeline: ALL n! orders of seven 6-line inputs built around order-sensitive special cases '
               '(quick: every 6th permutation for two of them); for full-size inputs (3; thorough 5): reversal, both sorts, all rotations, all adjacent '
-              'transpositions, every single-line move to front/back; decorations on all lines at once and on each line singly (blanks, tabs, blanks around '
+              'transpositions, every single-line move to front/back; decorations on all lines at once and on each line singly (blanks, tabs, the twelve other characters str.strip() removes, blanks around '
               'commas, five comment-field styles, CR, comment lines with each prefix, blank lines, missing final newline); a duplicate with a different '
               'in-range value inserted before each line / at the top (last occurrence governs) and an identical duplicate appended; the override '
               'dictionary of the client on top of a base file (4 choices of overridden lines x 2 dictionary orders x 6 layouts of the end of the file). Oracle: computed '
